@@ -17,6 +17,7 @@ def plan(ctx):
             ('custom', {'C16_OPEN': "'{'", 'C16_MARK': "'#'", 'C16_CLOSE': "'}'"}, {'C16_OPEN': "'{'", 'C16_MARK': "'#'", 'C16_CLOSE': "'}'", 'C16_ALPHA': '"{{#}}}\\n\\rax"'}),
             # bracket characters with the high bit set (negative as plain char): comparisons must not mix char and unsigned char
             ('latin1', {'C16_OPEN': "'\\xab'", 'C16_MARK': "'\\xb7'", 'C16_CLOSE': "'\\xbb'"}, {'C16_OPEN': '0xab', 'C16_MARK': '0xb7', 'C16_CLOSE': '0xbb', 'C16_ALPHA': '"\\xab\\xab\\xb7\\xbb\\xbb\\n\\rax"'}),
+            ('stingy', {'C16_STINGY': 1}, {}), ('stingy_any', {'C16_STINGY': 1, 'C16_CONTENT_ANY': 1}, {'C16_CONTENT': 1}),
             ('content_any', {'C16_CONTENT_ANY': 1}, {'C16_CONTENT': 1}), ('content_notx', {'C16_CONTENT_NOTX': 1}, {'C16_CONTENT': 2})]
     qs = []
     for name, cxd, hd in cfgs:
